@@ -55,15 +55,17 @@ Qed.
 Theorem qos2_first_arrival : forall s t id r d ps pl s' hr,
   handle_packet s (RPublish t (Some id) Q2 r d ps pl) = (s', hr) ->
   mem_id id (s_srv s) = false -> glen (s_srv s) < MAX_INBOUND_QOS2 ->
-  s_srv s' = s_srv s ++ [id] /\
-  ((hr = HOk true /\ ack_appended s s' (CPubRec id 0)) \/
-   (s' = set_srv s (s_srv s ++ [id]) /\ refused (set_srv s (s_srv s ++ [id])) (CPubRec id 0) hr)).
+  (hr = HOk true /\ ack_appended s s' (CPubRec id 0) /\ s_srv s' = s_srv s ++ [id]) \/
+  (s' = s /\ refused s (CPubRec id 0) hr).
 Proof.
   intros s t id r d ps pl s' hr H Hm Hl. cbn [handle_packet] in H. rewrite Hm in H.
-  destruct (N.leb_spec MAX_INBOUND_QOS2 (glen (s_srv s))) as [L|L]; [lia|].
-  destruct (queue_ctl_checked_spec _ _ _ _ _ H) as [[Hr [Hs _]]|[Hs Hr]]; subst s'.
-  - split; [reflexivity|]. left. split; [exact Hr|]. repeat split.
-  - split; [reflexivity|]. right. split; [reflexivity|exact Hr].
+  destruct (N.leb_spec MAX_INBOUND_QOS2 (glen (s_srv s))) as [L|L]; [lia|]. cbn [orb negb] in H.
+  destruct (queue_ctl_checked s (CPubRec id 0) (negb (negb (rc_success 0)))) as [s1 h1] eqn:E.
+  destruct (queue_ctl_checked_spec _ _ _ _ _ E) as [[Hr [Hs _]]|[Hs Hr]]; subst s1.
+  - subst h1. inversion H; subst s' hr. left. split; [reflexivity|]. split; [repeat split|reflexivity].
+  - right. destruct Hr as [[-> Hq]|[e [-> Hq]]]; inversion H; subst s' hr; (split; [reflexivity|]).
+    + left. split; [reflexivity|exact Hq].
+    + right. exists e. split; [reflexivity|exact Hq].
 Qed.
 
 (* retransmission while the identifier is pending: acknowledged again, NOT delivered again, set unchanged *)
@@ -73,10 +75,12 @@ Theorem qos2_duplicate : forall s t id r d ps pl s' hr,
   s_srv s' = s_srv s /\ hr <> HOk true /\
   ((hr = HOk false /\ ack_appended s s' (CPubRec id 0)) \/ (s' = s /\ refused s (CPubRec id 0) hr)).
 Proof.
-  intros s t id r d ps pl s' hr H Hm. cbn [handle_packet] in H. rewrite Hm in H.
-  destruct (queue_ctl_checked_spec _ _ _ _ _ H) as [[Hr [Hs _]]|[Hs Hr]]; subst s'.
-  - split; [reflexivity|]. split; [rewrite Hr; discriminate|]. left. split; [exact Hr|]. repeat split.
-  - split; [reflexivity|]. split.
+  intros s t id r d ps pl s' hr H Hm. cbn [handle_packet] in H. rewrite Hm in H. cbn [orb negb] in H.
+  destruct (queue_ctl_checked s (CPubRec id 0) false) as [s1 h1] eqn:E.
+  destruct (queue_ctl_checked_spec _ _ _ _ _ E) as [[Hr [Hs _]]|[Hs Hr]]; subst s1.
+  - subst h1. inversion H; subst s' hr. split; [reflexivity|]. split; [discriminate|]. left. split; [reflexivity|]. repeat split.
+  - assert (Hs' : s' = s /\ hr = h1) by (destruct h1; inversion H; subst; split; reflexivity). destruct Hs' as [-> ->].
+    split; [reflexivity|]. split.
     + destruct Hr as [[-> _]|[e [-> _]]]; discriminate.
     + right. split; [reflexivity|exact Hr].
 Qed.
@@ -90,10 +94,13 @@ Theorem qos2_over_receive_maximum : forall s t id r d ps pl s' hr,
   ((hr = HOk false /\ ack_appended s s' (CPubRec id 147)) \/ (s' = s /\ refused s (CPubRec id 147) hr)).
 Proof.
   intros s t id r d ps pl s' hr H Hm Hl. cbn [handle_packet] in H. rewrite Hm in H.
-  destruct (N.leb_spec MAX_INBOUND_QOS2 (glen (s_srv s))) as [L|L]; [|lia].
-  destruct (queue_ctl_checked_spec _ _ _ _ _ H) as [[Hr [Hs _]]|[Hs Hr]]; subst s'.
-  - split; [reflexivity|]. split; [rewrite Hr; discriminate|]. left. split; [exact Hr|]. repeat split.
-  - split; [reflexivity|]. split.
+  destruct (N.leb_spec MAX_INBOUND_QOS2 (glen (s_srv s))) as [L|L]; [|lia]. cbn [orb negb] in H.
+  change (rc_success 147) with false in H. cbn [negb orb] in H.
+  destruct (queue_ctl_checked s (CPubRec id 147) false) as [s1 h1] eqn:E.
+  destruct (queue_ctl_checked_spec _ _ _ _ _ E) as [[Hr [Hs _]]|[Hs Hr]]; subst s1.
+  - subst h1. inversion H; subst s' hr. split; [reflexivity|]. split; [discriminate|]. left. split; [reflexivity|]. repeat split.
+  - assert (Hs' : s' = s /\ hr = h1) by (destruct h1; inversion H; subst; split; reflexivity). destruct Hs' as [-> ->].
+    split; [reflexivity|]. split.
     + destruct Hr as [[-> _]|[e [-> _]]]; discriminate.
     + right. split; [reflexivity|exact Hr].
 Qed.
@@ -223,11 +230,14 @@ Proof.
     cbn [handle_packet]; try (left; reflexivity).
   - destruct q; [left; reflexivity| |]; (destruct pid as [id|]; [|left; reflexivity]).
     + left. apply queue_ctl_checked_srv.
-    + destruct (mem_id id (s_srv s)) eqn:Em; [left; apply queue_ctl_checked_srv|].
-      destruct (MAX_INBOUND_QOS2 <=? glen (s_srv s)); [left; apply queue_ctl_checked_srv|].
+    + match goal with |- context [queue_ctl_checked s ?a ?dl] =>
+        pose proof (queue_ctl_checked_srv s a dl) as Hq; destruct (queue_ctl_checked s a dl) as [s1 hr] end.
+      cbn [fst] in Hq |- *. destruct hr as [b|e]; [|left; exact Hq].
+      destruct (mem_id id (s_srv s)) eqn:Em; cbn [orb]; [left; exact Hq|].
+      destruct (MAX_INBOUND_QOS2 <=? glen (s_srv s)); [left; exact Hq|].
       right. left. exists t, id, r, d, ps, pl. split; [reflexivity|]. split.
       * intros Hi. apply mem_id_In in Hi. congruence.
-      * rewrite queue_ctl_checked_srv. reflexivity.
+      * reflexivity.
   - left. destruct (ack_packet _ _) as [o f]. destruct (negb f); [reflexivity|]. destruct (rc_success rc); reflexivity.
   - left. destruct (ack_packet _ _) as [o f]. destruct f.
     + destruct (negb (rc_success rc)); [reflexivity|]. cbn [set_ob s_rt].
